@@ -273,3 +273,69 @@ func derive3Programs() []Program {
 		Harness: map[string][]byte{"zz_verif_harness.go": []byte(derive3Harness)},
 		Desc:    "derive over mutually recursive types"}}
 }
+
+// fourth family: the working package declares its own catch-all instance (func CloneGiven[T any]). It takes
+// precedence over the derive package's catch-all (clone.Given) for every field type that has no more specific
+// instance - observable through a call counter.
+const derive4Types = `package d4
+
+import (
+	"github.com/csgura/fp"
+	"github.com/csgura/fp/clone"
+)
+
+//go:generate gombok
+
+var LocalCalls int
+
+// the working package's own fallback instance
+func CloneGiven[T any]() fp.Clone[T] {
+	return clone.New(func(t T) T {
+		LocalCalls++
+		return t
+	})
+}
+
+// Inner has no Clone instance of its own anywhere
+type Inner struct {
+	N int
+}
+
+type Outer struct {
+	In  Inner
+	Ptr *Inner
+	L   []Inner
+	K   int
+}
+
+// @fp.Derive
+var _ clone.Derives[fp.Clone[Outer]]
+`
+
+const derive4Harness = `package d4
+
+import (
+	zz "scratchmod/zzverif"
+)
+
+func VH_c08_local_catch_all_precedence() {
+	x := Outer{In: Inner{N: zz.Int("in")}, K: zz.Int("k"), L: []Inner{{N: zz.Int("l0")}}}
+	if zz.Bool("ptr") {
+		x.Ptr = &Inner{N: zz.Int("p")}
+	}
+	LocalCalls = 0
+	c := CloneOuter().Clone(x)
+	zz.Assert(c.In == x.In && c.K == x.K && len(c.L) == 1 && c.L[0] == x.L[0] && (c.Ptr == nil) == (x.Ptr == nil) && (x.Ptr == nil || *c.Ptr == *x.Ptr), "derived Clone[Outer] copies every field")
+	want := 2 // In and L[0]
+	if x.Ptr != nil {
+		want++
+	}
+	zz.Assert(LocalCalls >= want, "fields without a specific instance are cloned by the working package's own catch-all instance, not by the derive package's")
+}
+`
+
+func derive4Programs() []Program {
+	return []Program{{Pkg: "d4", Files: map[string][]byte{"types.go": []byte(derive4Types)},
+		Harness: map[string][]byte{"zz_verif_harness.go": []byte(derive4Harness)},
+		Desc:    "derive: local catch-all instance takes precedence over the derive package's"}}
+}
